@@ -16,19 +16,21 @@ Clauses == {"C10_Valid", "C10_End", "C10_EndRel", "C10_Start", "C10_Radius", "C1
             "C10_Controls", "C10_Points", "C11_Same", "C12_Long", "C12_Short", "C12_Count", "C12_Halving", "C12_Chord", "C12_Units"}
 
 E(e) == [e EXCEPT !.centers = {e.centers[i] : i \in DOMAIN e.centers}]
-OkA(e) == e.outA = "ok" /\ OnlyMoves(e.linesA) /\ e.linesA # <<>>
-OkR(e) == e.outR = "ok" /\ OnlyMoves(e.linesR) /\ e.linesR # <<>>
-OkH(e) == e.outH = "ok" /\ OnlyMoves(e.linesH) /\ e.linesH # <<>>
+LinesOK(e, ls) == ls # <<>> /\ (IF e.shape = "mixed" THEN MovesAndModes(ls) ELSE OnlyMoves(ls))
+OkA(e) == e.outA = "ok" /\ LinesOK(e, e.linesA)
+OkR(e) == e.outR = "ok" /\ LinesOK(e, e.linesR)
+OkH(e) == e.outH = "ok" /\ LinesOK(e, e.linesH)
+PathOf(e, rel, ls) == IF e.shape = "mixed" THEN MotionPath(e.start, rel, ls) ELSE Path(e.start, rel, ls)
 
 Holds(c, e0) ==
   LET e  == E(e0)
-      VA == Path(e.start, FALSE, e.linesA)
-      VR == Path(e.start, TRUE, e.linesR)
-      VH == Path(e.start, FALSE, e.linesH) IN
+      VA == PathOf(e, FALSE, e.linesA)
+      VR == PathOf(e, TRUE, e.linesR)
+      VH == PathOf(e, FALSE, e.linesH) IN
   CASE c = "C10_Valid"     -> e.shape = "units" \/ (OkA(e) /\ (e.onlyA \/ (OkR(e) /\ OkH(e))))            \* a valid request is carried out, in both modes
     [] c = "C10_End"       -> OkA(e) => C10_End(e, VA, 1)
     [] c = "C10_EndRel"    -> OkR(e) => C10_End(e, VR, (Len(VR) + 3) \div 2)
-    [] c = "C10_Start"     -> (OkA(e) /\ e.shape \notin {"polyline", "parametric"}) => C10_Start(e, VA)   \* a user curve may start elsewhere
+    [] c = "C10_Start"     -> (OkA(e) /\ e.shape \notin {"polyline", "parametric", "mixed"}) => C10_Start(e, VA)   \* a user curve may start elsewhere
     [] c = "C10_Radius"    -> OkA(e) => C10_Radius(e, VA)
     [] c = "C10_Sweep"     -> OkA(e) => C10_Sweep(e, VA)
     [] c = "C10_Direction" -> OkA(e) => C10_Direction(e, VA)
@@ -48,8 +50,9 @@ Ante(c, e) ==
   CASE c \in {"C10_Radius"} -> e.shape \in Circular
     [] c \in {"C10_Sweep", "C10_Direction", "C10_Linear"} -> e.shape \in Angular /\ e.far
     [] c = "C10_Controls" -> e.shape = "spline"
-    [] c = "C10_Points" -> e.shape = "polyline"
-    [] c \in {"C12_Long", "C12_Short", "C12_Count", "C12_Chord"} -> e.shape \in ConstSpeed
+    [] c = "C10_Points" -> e.shape \in {"polyline", "mixed"}
+    [] c \in {"C12_Long", "C12_Short", "C12_Count"} -> IsConst(e)
+    [] c = "C12_Chord" -> e.shape \in ConstSpeed
     [] c = "C12_Units" -> e.shape = "units"
     [] OTHER -> TRUE
 
